@@ -321,7 +321,20 @@ func (c *Coordinator) alleviateShards(changeAbleShards []*shardInfo) space {
 }
 
 func (c *Coordinator) alleviateShardHeadSeries(s *shardInfo, changeAbleShards []*shardInfo, expSeries int64) (needSpace int64) {
+	// a too big target keeps this shard overloaded whatever else is moved away, also while it is not (yet) a
+	// candidate for being moved itself: it is left out of what the relief has to shed from the start, so that
+	// whether and how much is moved does not depend on the order the targets are visited in
 	total := s.totalTargetsHeadSeries()
+	tooBig := false
+	for _, tar := range s.scraping {
+		if tar.Series > c.option.MaxHeadSeries || tar.TotalSeries > c.option.MaxProcessSeries {
+			tooBig = true
+			if settled(tar) { // only then it is part of total
+				total -= tar.Series
+			}
+		}
+	}
+
 	if total <= expSeries {
 		return 0
 	}
@@ -329,27 +342,17 @@ func (c *Coordinator) alleviateShardHeadSeries(s *shardInfo, changeAbleShards []
 	c.log.Infof("%s need alleviate head series, cur = %d, exp = %d", s.shard.ID, total, expSeries)
 	alleviateShardsTotal.WithLabelValues().Inc()
 
-	tooBig := false
 	for hash, tar := range s.scraping {
 		if total <= expSeries {
 			break
 		}
 
-		settled := tar.TargetState == target.StateNormal && tar.Health == scrape.HealthGood && tar.ScrapeTimes >= minWaitScrapeTimes
-
-		// a too big target keeps this shard overloaded whatever else is moved away,
-		// also while it is not (yet) a candidate for being moved itself
-		// (it is passed over, not a reason to give the shard up: what can be moved is moved whatever the order of the map)
 		if tar.Series > c.option.MaxHeadSeries || tar.TotalSeries > c.option.MaxProcessSeries {
 			c.log.Warnf("too big series [%d] series is [%d], skip it", hash, tar.Series)
-			tooBig = true
-			if settled { // only then it is part of total
-				total -= tar.Series
-			}
 			continue
 		}
 
-		if !settled {
+		if !settled(tar) {
 			continue
 		}
 
@@ -377,7 +380,16 @@ func (c *Coordinator) alleviateShardHeadSeries(s *shardInfo, changeAbleShards []
 }
 
 func (c *Coordinator) alleviateShardProcessSeries(s *shardInfo, changeAbleShards []*shardInfo, expSeries int64) (needSpace int64) {
+	// a too big target keeps this shard overloaded whatever else is moved away, also while it is not (yet) a
+	// candidate for being moved itself: it is left out of what the relief has to shed from the start, so that
+	// whether and how much is moved does not depend on the order the targets are visited in
 	total := s.totalTargetsTotalSeries()
+	for _, tar := range s.scraping {
+		if tar.TotalSeries > c.option.MaxProcessSeries && settled(tar) {
+			total -= tar.TotalSeries
+		}
+	}
+
 	if total <= expSeries {
 		c.log.Infof("alleviateShardProcessSeries %s cur is %d ,but total target series is %d, skip", s.shard.ID, s.runtime.ProcessSeries, total)
 		return 0
@@ -391,20 +403,12 @@ func (c *Coordinator) alleviateShardProcessSeries(s *shardInfo, changeAbleShards
 			break
 		}
 
-		settled := tar.TargetState == target.StateNormal && tar.Health == scrape.HealthGood && tar.ScrapeTimes >= minWaitScrapeTimes
-
-		// a too big target keeps this shard overloaded whatever else is moved away,
-		// also while it is not (yet) a candidate for being moved itself
-		// (it is passed over, not a reason to give the shard up: what can be moved is moved whatever the order of the map)
 		if tar.TotalSeries > c.option.MaxProcessSeries {
 			c.log.Warnf("too big series [%d] series is [%d], skip it", hash, tar.Series)
-			if settled { // only then it is part of total
-				total -= tar.TotalSeries
-			}
 			continue
 		}
 
-		if tar.TotalSeries == 0 || !settled {
+		if tar.TotalSeries == 0 || !settled(tar) {
 			continue
 		}
 
@@ -428,6 +432,11 @@ func (c *Coordinator) alleviateShardProcessSeries(s *shardInfo, changeAbleShards
 		return total - expSeries
 	}
 	return 0
+}
+
+// settled: the target's load is known and counted (see totalTargetsHeadSeries, totalTargetsTotalSeries)
+func settled(tar *target.ScrapeStatus) bool {
+	return tar.TargetState == target.StateNormal && tar.Health == scrape.HealthGood && tar.ScrapeTimes >= minWaitScrapeTimes
 }
 
 func transferTarget(from, to *shardInfo, hash uint64) {
